@@ -377,7 +377,7 @@ fn finish(spec: &Spec, args: &Args, mut rep: Report, wall: f64) -> i32 {
             "rule": spec.rule,
             "samples": samples,
             "exhaustive": false,
-            "exhaustive_subspace": if args.thorough { spec.exhaustive_note } else { None },
+            "exhaustive_subspace": spec.exhaustive_note,
             "families": rep.families,
             "clauses": clauses,
             "observations": rep.obs,
